@@ -1,0 +1,52 @@
+//! Verification hooks. Compiled only with `--cfg qbice_verif`; with the flag off
+//! nothing of this module exists and the `verif_point!` / `verif_pause!` call
+//! sites expand to nothing.
+//!
+//! A harness installs a [`Sink`]. `emit` is called from inside the critical
+//! section (or right after the atomic operation) a label names, so the order of
+//! emitted events is a linearisation of those steps. `pause` is an await point
+//! the harness controls: it lets a test yield, block on a gate, or cancel the
+//! surrounding future exactly there. Without a sink both are no-ops.
+
+#![allow(missing_docs, clippy::missing_panics_doc, clippy::type_complexity)]
+
+use std::{
+    future::Future,
+    pin::Pin,
+    sync::{Arc, RwLock},
+};
+
+use crate::query::QueryID;
+
+/// Receiver of hook events.
+pub trait Sink: Send + Sync + 'static {
+    /// An atomic step `label` happened for `id` (if the step concerns a query)
+    /// with an auxiliary number `n`.
+    fn emit(&self, label: &'static str, id: Option<&QueryID>, n: u64);
+
+    /// A controllable await point.
+    fn pause<'a>(
+        &'a self,
+        label: &'static str,
+        id: Option<&'a QueryID>,
+    ) -> Pin<Box<dyn Future<Output = ()> + Send + 'a>>;
+}
+
+static SINK: RwLock<Option<Arc<dyn Sink>>> = RwLock::new(None);
+
+/// Installs (or removes) the process-wide sink.
+pub fn set_sink(sink: Option<Arc<dyn Sink>>) { *SINK.write().unwrap() = sink; }
+
+fn sink() -> Option<Arc<dyn Sink>> { SINK.read().unwrap().clone() }
+
+pub fn emit(label: &'static str, id: Option<&QueryID>, n: u64) {
+    if let Some(s) = sink() {
+        s.emit(label, id, n);
+    }
+}
+
+pub async fn pause(label: &'static str, id: Option<&QueryID>) {
+    if let Some(s) = sink() {
+        s.pause(label, id).await;
+    }
+}
